@@ -14,7 +14,7 @@ GInit == Init /\ hist = <<>>
 
 GQueryWith(q, up) ==
   /\ Query(q, up)
-  /\ hist' = Append(hist, [op |-> "query", q |-> q, up |-> up, via |-> last'.via,
+  /\ hist' = Append(hist, [op |-> "query", q |-> last'.q, up |-> up, via |-> last'.via,
                            exp |-> [served |-> last'.served,
                                     upstream |-> ~last'.fromCache]])
 GTickWith(d) ==
@@ -23,7 +23,7 @@ GTickWith(d) ==
 
 (* exhaustive: every query; every upstream answer when upstream is consulted *)
 GQuery == \E q \in Queries :
-          \E up \in (IF Hits(entries, q) THEN {CHOOSE u \in Up(q) : TRUE} ELSE Up(q)) :
+          \E up \in (IF Hits(entries, q) THEN {CHOOSE u \in Up(AskedQ(q)) : TRUE} ELSE Up(AskedQ(q))) :
              GQueryWith(q, up)
 GTick == \E d \in Ticks : GTickWith(d)
 
@@ -36,17 +36,21 @@ GNext == /\ steps < MaxSteps
 (* of all successors is far too large to enumerate); every other query    *)
 (* re-asks the previous question with other flags so that the lattice is  *)
 (* exercised                                                              *)
+(* the same construction route with CD as given, in the source message *)
+RouteWithCd(r, b) == [src |-> [r.src EXCEPT !.cd = b],
+                      ops |-> SelectSeq(r.ops, LAMBDA o : o[1] # "cd")]
 Sticky(base) ==
   IF /\ base.nq = 1 /\ base.op = "QUERY" /\ base.qclass = "IN"
      /\ last.q.nq = 1 /\ last.q.op = "QUERY" /\ last.q.qclass = "IN"
-  THEN [base EXCEPT !.name = last.q.name, !.qtype = last.q.qtype, !.cd = last.q.cd]
+  THEN NormQ([base EXCEPT !.name = last.q.name, !.qtype = last.q.qtype,
+                          !.route = RouteWithCd(base.route, last.q.cd)])
   ELSE base
 SimQuery ==
   \E base \in {RandomElement(Queries)} : \E st \in {RandomElement(1..3)} :
     \E q \in {IF st = 1 THEN base ELSE Sticky(base)} :
       \E cls \in {RandomElement(Classes)} : \E tv \in {RandomElement(TtlVecs)} :
         \E adb \in {RandomElement(IF q.ad \/ q.do THEN AdBits ELSE {FALSE})} :
-          GQueryWith(q, Mk(q, cls, tv, adb))
+          GQueryWith(q, Mk(AskedQ(q), cls, tv, adb))
 SimTick == \E d \in {RandomElement(Ticks)} : GTickWith(d)
 SimNext == /\ steps < MaxSteps
            /\ steps' = steps + 1
@@ -91,4 +95,5 @@ EmitCfg ==
 (* the property along generated behaviours too *)
 GProp == /\ ServedWasSaid(last) /\ AgedExactly(last) /\ NeverStale(last)
          /\ BoundsRespected(last) /\ NoDnssecLeak(last) /\ NoPanic(last)
+         /\ ViewIsWire(last)
 =============================================================================
